@@ -190,6 +190,11 @@ macro_rules! iter_dispatch {
     }};
 }
 
+/// set by `audit` when a list is not a well-formed chain matching its index: the runner then ends the
+/// history at that call (going on with a corrupted list is undefined behaviour and would only bury the
+/// first failure under hangs and aborts)
+pub static AUDIT_BAD: std::sync::atomic::AtomicBool = std::sync::atomic::AtomicBool::new(false);
+
 /// Structural audit of one RawLRU through the verification hook.
 /// Returns (well-formed, entries most-recent first).
 pub fn audit<E, S>(c: &caches::RawLRU<TKey, TVal, E, S>) -> (bool, Vec<(u64, u64)>) {
@@ -218,6 +223,9 @@ pub fn audit<E, S>(c: &caches::RawLRU<TKey, TVal, E, S>) -> (bool, Vec<(u64, u64
         }
     }
     let ents = a.fwd.iter().map(|x| (x.2.id, x.3.v)).collect();
+    if !ok {
+        AUDIT_BAD.store(true, std::sync::atomic::Ordering::Relaxed);
+    }
     (ok, ents)
 }
 
